@@ -30,7 +30,7 @@ CHECKS["C10"] = dict(
 CHECKS["C17"] = dict(
    category="exploration", engine="B small-scope exhaustive + BFS over reference PDA states",
    technique="exhaustive enumeration of all file contents up to 7/8 bytes over 5 symbols x all positions against a reference renderer; BFS over reference PDA states for error positions",
-   text="(a) Every file content of length 0..7 (thorough 8) over {a,space,tab,LF,CR} with every position inside it is rendered through the public DocumentError API; no rendering may panic, and for consistently terminated files line number, left-trimmed text and caret column must equal a reference renderer; line-length families around the 200-byte cut. (b) For every reference-PDA state (nesting <= 4/6) and every string <= 4/5 symbols: the error position of the first dead byte and of an early end of input. (c) every rule-free schema <= 3/4 nodes and every depth-5 spine with ONE planted violation at every node (value of another kind, unknown key) plus 14 single-rule breakers in 9 contexts: the reported position is the start of the planted value / key. (e) errors passed through kit.ConvertError keep file, position, code and rendering, for named and unnamed documents. (d) one error value rendered, moved with SetIndex and rendered again must show what a fresh error shows (all contents <= 5/6 bytes x all position pairs). Files of up to 4097 lines with lines of up to 210 bytes (line numbers around powers of ten and two).",
+   text="(a) Every file content of length 0..7 (thorough 8) over {a,space,tab,LF,CR} with every position inside it is rendered through the public DocumentError API; no rendering may panic, and for consistently terminated files line number, left-trimmed text and caret column must equal a reference renderer; line-length families around the 200-byte cut. (b) For every reference-PDA state (nesting <= 4/6) and every string <= 4/5 symbols: the error position of the first dead byte and of an early end of input. (c) every rule-free schema <= 3/4 nodes and every depth-5 spine with ONE planted violation at every node (value of another kind, unknown key) plus 14 single-rule breakers in 9 contexts: the reported position is the start of the planted value / key. (e) errors passed through kit.ConvertError keep file, position, code and rendering, for named and unnamed documents. (d) one error value rendered, moved with SetIndex and rendered again must show what a fresh error shows (all contents <= 5/6 bytes x all position pairs). Files of up to 4097 lines with lines of up to 210 bytes (line numbers around powers of ten and two). 32 schema texts that end early x blank paddings: structured end-of-file error at the last byte.",
    note="Trusted: the 100-line reference renderer. Not asserted: mixed LF/CR files' line numbers, caret inside leading blanks or on blank-only lines, positions for blank-only input.",
    design="4/C17")
 CHECKS["C01"] = dict(
@@ -43,14 +43,14 @@ CHECKS["C01"] = dict(
 CHECKS["C02"] = dict(
    category="exploration", engine="B small-scope enumeration with reference rule semantics",
    technique="exhaustive enumeration of rule sets x parameter variants x examples x boundary probes against a three-valued reference (math/big, regexp, calendar)",
-   text="For every scalar kind, all rule sets of up to 5 (thorough 7) distinct rule names with all parameter variants from boundary sets, for every example candidate that satisfies them, validated against probe values on, just inside and just outside every bound, alternative numeral spellings, escaped strings, exhaustive date grids, datetime field boundaries, uuid shapes and curated email/uri lists, and every other JSON kind; the verdict must equal the reference rule semantics. Second family: every ordered pair of annotated scalar slots as sibling properties and sibling array items, validated against every combination of (good | each rule-breaking value) for both siblings. String probes include values that carry escaped quotes at both ends.",
+   text="For every scalar kind, all rule sets of up to 5 (thorough 7) distinct rule names with all parameter variants from boundary sets, for every example candidate that satisfies them, validated against probe values on, just inside and just outside every bound, alternative numeral spellings, escaped strings, exhaustive date grids, datetime field boundaries, uuid shapes and curated email/uri lists, and every other JSON kind; the verdict must equal the reference rule semantics. Second family: every ordered pair of annotated scalar slots as sibling properties and sibling array items, validated against every combination of (good | each rule-breaking value) for both siblings. String probes include values that carry escaped quotes at both ends. Anchored literal patterns (^ab$, \\Aab\\z) with probes that contain the literal.",
    note="Trusted: ref/refv + ref/decimal. Not asserted: non-ASCII string lengths, alternative spellings for const/enum, RFC 3339 corners left to the Go standard library, email/uri beyond curated lists.",
    design="4/C02")
 
 CHECKS["C08"] = dict(
    category="exploration", engine="B small-scope enumeration, permutation-invariance + reference predicate",
    technique="exhaustive enumeration of rule subsets x parameter variants x ALL permutations; metamorphic order-invariance plus three-valued reference applicability predicate",
-   text="10 node kinds x 3 positions x all subsets of <= 3 (thorough 4) of 18 rule names plus an unknown name and duplicated names x parameter variants, each compiled in every permutation and under both key-optionality configurations (Check asked twice per object): Check's verdict must not depend on the order, and must equal the applicability/consistency predicate written from the statement wherever that predicate is decided; plus scalar examples with rule sets of <= 3 (4) names from the kind's applicable pool with boundary parameters, which supply the well-formed (accept-side) cases. The statement's exclusions inside or rule-sets (format types with length/regex rules, any with const) in every position, with accepted controls. Empty-object parents among the allOf values.",
+   text="10 node kinds x 3 positions x all subsets of <= 3 (thorough 4) of 18 rule names plus an unknown name and duplicated names x parameter variants, each compiled in every permutation and under both key-optionality configurations (Check asked twice per object): Check's verdict must not depend on the order, and must equal the applicability/consistency predicate written from the statement wherever that predicate is decided; plus scalar examples with rule sets of <= 3 (4) names from the kind's applicable pool with boundary parameters, which supply the well-formed (accept-side) cases. The statement's exclusions inside or rule-sets (format types with length/regex rules, any with const) in every position, with accepted controls. Empty-object parents among the allOf values. Every rule name padded with blanks inside its quotes must be unknown (annotation, property, or rule-set); the exact quoted name is the accepted control.",
    note="Trusted: ref/wf predicate and ref/refv. Error codes are not compared; statement-silent combinations are Unspecified (listed in the evidence assumptions).",
    design="4/C08")
 
@@ -92,14 +92,14 @@ CHECKS["C09"] = dict(
 CHECKS["C03"] = dict(
    category="exploration", engine="B small-scope enumeration of type environments x root constructs x documents",
    technique="exhaustive enumeration of four construct families (type references/or, allOf, additionalProperties, key shortcuts) x all small documents against a three-valued set-semantics reference, plus union differential",
-   text="All ordered pairs of user types from a 10-body pool plus a derived third type (alias, or, nullable alias, nullable or-alias) x 15 root constructs (also rule-sets with nullable next to a type reference) x nullable x 6 positions x all documents <= 3 nodes (all arrays <= 3 elements for array positions); 9 allOf configurations x 4 additionalProperties settings x both configs x all 1024 objects over 5 keys; 13 additionalProperties settings x shapes x 150 objects; 5 key types x optionality x layouts x all objects with <= 3 members over 6 keys. The library verdict must equal the reference union/conjunction semantics and verdict(@A|@B) must equal verdict(@A) or verdict(@B). Nested extension: an extending object owning (directly, as array item, two levels down, through a user type or an heir) a property whose object extends types itself, 5 inner bodies x 7 shapes x all member combinations. Document keys spelled like type names (@K) and examples holding a shortcut next to a property of the same spelling. Parents that declare additionalProperties themselves (directly and one level up) under every own setting of the heir.",
+   text="All ordered pairs of user types from a 10-body pool plus a derived third type (alias, or, nullable alias, nullable or-alias) x 15 root constructs (also rule-sets with nullable next to a type reference) x nullable x 6 positions x all documents <= 3 nodes (all arrays <= 3 elements for array positions); 9 allOf configurations x 4 additionalProperties settings x both configs x all 1024 objects over 5 keys; 13 additionalProperties settings x shapes x 150 objects; 5 key types x optionality x layouts x all objects with <= 3 members over 6 keys. The library verdict must equal the reference union/conjunction semantics and verdict(@A|@B) must equal verdict(@A) or verdict(@B). Nested extension: an extending object owning (directly, as array item, two levels down, through a user type or an heir) a property whose object extends types itself, 5 inner bodies x 7 shapes x all member combinations. Document keys spelled like type names (@K) and examples holding a shortcut next to a property of the same spelling. Parents that declare additionalProperties themselves (directly and one level up) under every own setting of the heir. Nested-or family: every pair of 8 container bodies that hold unions themselves, as @A | @B, as property and as array item.",
    note="Trusted: ref/refv. Unspecified (counted in the evidence): cardinality/precedence of shortcut matches, presence of non-optional shortcut entries, rule-less key types, integer under additionalProperties float.",
    design="4/C03")
 
 CHECKS["C15"] = dict(
    category="exploration", engine="B small-scope enumeration over the merged schema corpus (C01/C03/C04/C09 generators + hostile keys)",
    technique="exhaustive enumeration of all Check-accepted generated schemas; well-formedness by reference PDA + encoding/json, self-validation, compact-equality",
-   text="Every Check-accepted case of the merged generators (all rule-free schemas <= 3/4 nodes in both configs, type-reference/or/allOf/additionalProperties/key-shortcut families, 34 rule slots x 13 contexts, all fully inhabited type graphs over 1-2 types (arrays with the reference first / last) and ring/diamond families with optional/array/terminating edges, the deep family of two types with every pair of slots per object body, hostile keys and strings with every control character): Example() must succeed, be well-formed JSON, be accepted by its own schema, and equal the compact example for plain-JSON schemas. C16's rule family as input (every kind of rule value).",
+   text="Every Check-accepted case of the merged generators (all rule-free schemas <= 3/4 nodes in both configs, type-reference/or/allOf/additionalProperties/key-shortcut families, 34 rule slots x 13 contexts, all fully inhabited type graphs over 1-2 types (arrays with the reference first / last) and ring/diamond families with optional/array/terminating edges, the deep family of two types with every pair of slots per object body, hostile keys and strings with every control character): Example() must succeed, be well-formed JSON, be accepted by its own schema, and equal the compact example for plain-JSON schemas. C16's rule family as input (every kind of rule value). Big examples: objects of 20..1200 properties and arrays of as many items, followed by a small sibling, through a type, and twice in a row.",
    note="Trusted: reference PDA, encoding/json. Known finding (class decided by the check: a simulation of the documented cut-off policy itself yields a rejected example): recursion cut-off at required positions / first alternative gives self-rejected or empty examples.",
    design="4/C15")
 
@@ -113,14 +113,14 @@ CHECKS["C16"] = dict(
 CHECKS["C13"] = dict(
    category="exploration", engine="B small-scope enumeration x full product of spelling dimensions (metamorphic)",
    technique="exhaustive product of 324 schema spellings + notes + rule permutations over generated accepted and rejected schemas; document re-spellings x property permutations x escape spellings; reference-free equality of verdicts and ASTs",
-   text="Accepted and rejected schemas (rule slots x contexts x corruptions, construct families, rule sets on 10 node kinds, or rule-sets with every nested rule name, the AST family, every kind of rule value as first / last rule) are rendered in the full product of line end x indentation x user comments x annotation form x quoted/bare rule names x trailing comma (a # comment also follows inline annotations and notes), with notes added under the full product of line end x comments x annotation form, and in every rule order: Check's verdict, the AST with comments blanked and the verdict of 22 probe documents plus the example must equal the canonical spelling's. Probe documents are re-spelled (4 whitespace layouts x all property orders x plain / \\uXXXX / \\/ string spellings): the verdict must not change under any schema. Blanks inside annotations (tab, runs, none) after the opening mark, before the closing mark and as body indentation.",
+   text="Accepted and rejected schemas (rule slots x contexts x corruptions, construct families, rule sets on 10 node kinds, or rule-sets with every nested rule name, the AST family, every kind of rule value as first / last rule) are rendered in the full product of line end x indentation x user comments x annotation form x quoted/bare rule names x trailing comma (a # comment also follows inline annotations and notes), with notes added under the full product of line end x comments x annotation form, and in every rule order: Check's verdict, the AST with comments blanked and the verdict of 22 probe documents plus the example must equal the canonical spelling's. Probe documents are re-spelled (4 whitespace layouts x all property orders x plain / \\uXXXX / \\/ string spellings): the verdict must not change under any schema. Blanks inside annotations (tab, runs, none) after the opening mark, before the closing mark and as body indentation. Multi-byte words as values and keys under content-sensitive schemas in every mixed spelling (each character escaped alone, every prefix, every suffix).",
    note="Reference-free. Not generated: comments inside rule objects, blanks inside empty brackets.",
    design="4/C13")
 
 CHECKS["C07"] = dict(
    category="exploration", engine="B exhaustive strings + bounded-deviation corpus edits + grammar-directed product + E construction-site enumeration; isolated memory-capped processes",
    technique="exhaustive enumeration of all short inputs, all 1-edit neighbours of a corpus and a grammar-directed product of hostile rule values through every public method; go/parser enumeration of every error construction site; process-level crash detection",
-   text="Every string of <= 4 (thorough 5) symbols over a 26-symbol schema alphabet in each role (schema, user type under 7 usages: alias, property, item, key shortcut, allOf parent, type rule, or rule; enum rule, regex type, document in 2 modes and under 4 schemas) through every public method on fresh objects and in sequence; every truncation and every single-byte deletion, insertion and substitution at every offset of all corpus files (repository testdata + generator outputs); a grammar-directed product of 7 examples x 21 rule names x 46 hostile rule values x 6 annotation positions (+ second rules in both orders), 140 type bodies over self/other/missing references, enum and regex bodies x 18 comment/literal tails; huge-exponent numerals, deep nesting and megabyte inputs in isolated processes under a 2.5 GB cap; every errors.Format call site and every template row executed. No call may panic, kill the process or hang; every error must expose ErrCode()+Message(), a Position() inside the source it names, and render without panicking. Several calls on ONE object (stream read to its first error, then Check / Len / NextLexeme; sequences on enums, regexes, schemas).",
+   text="Every string of <= 4 (thorough 5) symbols over a 26-symbol schema alphabet in each role (schema, user type under 7 usages: alias, property, item, key shortcut, allOf parent, type rule, or rule; enum rule, regex type, document in 2 modes and under 4 schemas) through every public method on fresh objects and in sequence; every truncation and every single-byte deletion, insertion and substitution at every offset of all corpus files (repository testdata + generator outputs); a grammar-directed product of 7 examples x 21 rule names x 46 hostile rule values x 6 annotation positions (+ second rules in both orders), 140 type bodies over self/other/missing references, enum and regex bodies x 18 comment/literal tails; huge-exponent numerals, deep nesting and megabyte inputs in isolated processes under a 2.5 GB cap; every errors.Format call site and every template row executed. No call may panic, kill the process or hang; every error must expose ErrCode()+Message(), a Position() inside the source it names, and render without panicking. Several calls on ONE object (stream read to its first error, then Check / Len / NextLexeme; sequences on enums, regexes, schemas). Single-line texts of 300-500 bytes in every role (errors on lines longer than the rendered excerpt).",
    note="Not asserted: API misuse that is not input-driven. Defects that depend on map iteration order are found deterministically only by C11's map-order scenarios. Known findings: infinite-recursion error is a bare Errorf (text pinned by a repository test); huge exponents are expanded into memory (OOM).",
    design="4/C07")
 
@@ -134,7 +134,7 @@ CHECKS["C12"] = dict(
 CHECKS["C11"] = dict(
    category="model_checking", engine="A/D exhaustive operation histories on live objects + environment-choice exploration (pool answers, map iteration orders) through the build overlay",
    technique="exhaustive enumeration of all operation histories up to depth 3/4 over a pool of live objects against fresh-object results with returned-value snapshots; exhaustive single (thorough: double) deviations of every sync.Pool answer and of every dynamic range-over-map order",
-   text="All histories of <= 3 (thorough 4) operations from a 59-operation alphabet over live Schema/Document/Enum/Regex objects (incl. lexically broken schema and enum rule, an enum rule object shared with the schema that uses it, an embedded document with trailing text, Validate / NextLexeme on live document objects and Len/Check on consumed ones) (plus 12-fold repetitions and round-robins): every result must equal the fresh-object result and every value handed out must be unchanged at the end; for histories <= 2 every pool answer is additionally deviated (fresh / oldest object); ALL merges of the NextLexeme call sequences of two live documents must deliver each document's own events. The library is built through an overlay that rewrites every range-over-map into iteration over an explicitly ordered key list: for a corpus of scenarios (a fixed slice of the C03/C09 generators in quick, all in thorough; multi-shortcut objects, allOf chains, errors located inside added types and allOf parents) every single (thorough: pair of) dynamic iteration order deviation (descending, rotations) must leave verdict, code, position, file and renderability of errors, AST, example and used types unchanged; static sites never reached with two keys are reported as uncovered. A third alphabet: a type object that extends @base used alone (where every call fails) and through a schema that knows both. A fourth alphabet (schemas without an example next to loads that fail half-way) and a construction-path family: every case of C16's rule family and a sample of C03's built through five constructors (string, []byte, bytes.Bytes, FromFile on both) must give identical results.",
+   text="All histories of <= 3 (thorough 4) operations from a 59-operation alphabet over live Schema/Document/Enum/Regex objects (incl. lexically broken schema and enum rule, an enum rule object shared with the schema that uses it, an embedded document with trailing text, Validate / NextLexeme on live document objects and Len/Check on consumed ones) (plus 12-fold repetitions and round-robins): every result must equal the fresh-object result and every value handed out must be unchanged at the end; for histories <= 2 every pool answer is additionally deviated (fresh / oldest object); ALL merges of the NextLexeme call sequences of two live documents must deliver each document's own events. The library is built through an overlay that rewrites every range-over-map into iteration over an explicitly ordered key list: for a corpus of scenarios (a fixed slice of the C03/C09 generators in quick, all in thorough; multi-shortcut objects, allOf chains, errors located inside added types and allOf parents) every single (thorough: pair of) dynamic iteration order deviation (descending, rotations) must leave verdict, code, position, file and renderability of errors, AST, example and used types unchanged; static sites never reached with two keys are reported as uncovered. A third alphabet: a type object that extends @base used alone (where every call fails) and through a schema that knows both. A fourth alphabet (schemas without an example next to loads that fail half-way) and a construction-path family: every case of C16's rule family and a sample of C03's built through five constructors (string, []byte, bytes.Bytes, FromFile on both) must give identical results. Twin comparison: the enum rule attached to a schema and the type object shared by two schemas against detached objects made from the same text, before and after each use.",
    note="Trusted: the overlay rewrite (sound: every produced order is a legal Go order). Message text is not compared. Consumed Document objects are not re-validated.",
    design="4/C11")
 
